@@ -5,6 +5,8 @@ package drpcconn
 
 import (
 	"context"
+	"errors"
+	"io"
 	"sync"
 
 	"github.com/zeebo/errs"
@@ -135,6 +137,19 @@ func (c *Conn) Invoke(ctx context.Context, rpc string, enc drpc.Encoding, in, ou
 }
 
 func (c *Conn) doInvoke(stream *drpcstream.Stream, enc drpc.Encoding, rpc string, data []byte, metadata []byte, out drpc.Message) (err error) {
+	// if the remote ends the rpc while the request is still being sent (it
+	// can reply with an error as soon as it has the invoke), the sends fail
+	// with io.EOF. the actual outcome is what the receive reports.
+	if err := c.doInvokeSend(stream, rpc, data, metadata); err != nil && !errors.Is(err, io.EOF) {
+		return err
+	}
+	if err := stream.MsgRecv(out, enc); err != nil {
+		return err
+	}
+	return nil
+}
+
+func (c *Conn) doInvokeSend(stream *drpcstream.Stream, rpc string, data []byte, metadata []byte) (err error) {
 	if len(metadata) > 0 {
 		if err := stream.RawWrite(drpcwire.KindInvokeMetadata, metadata); err != nil {
 			return err
@@ -146,13 +161,7 @@ func (c *Conn) doInvoke(stream *drpcstream.Stream, enc drpc.Encoding, rpc string
 	if err := stream.RawWrite(drpcwire.KindMessage, data); err != nil {
 		return err
 	}
-	if err := stream.CloseSend(); err != nil {
-		return err
-	}
-	if err := stream.MsgRecv(out, enc); err != nil {
-		return err
-	}
-	return nil
+	return stream.CloseSend()
 }
 
 // NewStream begins a streaming rpc on the connection. Only one Invoke or Stream may
